@@ -3,6 +3,8 @@ package props
 import (
 	"fmt"
 	"math"
+	"math/rand/v2"
+	"os"
 	"time"
 	"unsafe"
 
@@ -66,6 +68,119 @@ func c19checkAll(c *core.Ctx, r interface{ Uint64() uint64 }) {
 	c.Count("combined-records", 1)
 }
 
+// every position a time value can occupy under each interpretation: two nullable pointers (two allocations of
+// the same kind in one record), map values, arrays of pointers, arrays of values, a plain field last
+type c19Pos struct {
+	P1 *time.Time           `json:"p1"`
+	P2 *time.Time           `json:"p2"`
+	M  map[string]time.Time `json:"m"`
+	A  []*time.Time         `json:"a"`
+	S  []time.Time          `json:"s"`
+	T  time.Time            `json:"t"`
+}
+
+var c19pos [4]avro.Codec
+
+func c19checkPositions(c *core.Ctx, r *rand.Rand) {
+	types := []string{`{"type":"int","logicalType":"date"}`, `{"type":"long","logicalType":"timestamp-millis"}`, `{"type":"long","logicalType":"timestamp-micros"}`, `"long"`}
+	names := []string{"date", "timestamp-millis", "timestamp-micros", "plain-long"}
+	mults := []int64{0, 1e6, 1e3, 1}
+	for k, ty := range types {
+		if c19pos[k] == nil {
+			s, err := avro.SchemaFromString(`{"type":"record","name":"pos","fields":[{"name":"p1","type":["null",` + ty + `]},{"name":"p2","type":["null",` + ty + `]},{"name":"m","type":{"type":"map","values":` + ty + `}},{"name":"a","type":{"type":"array","items":["null",` + ty + `]}},{"name":"s","type":{"type":"array","items":` + ty + `}},{"name":"t","type":` + ty + `}]}`)
+			if err == nil {
+				c19pos[k], err = s.Codec(c19Pos{})
+			}
+			if err != nil {
+				c.Violate("build", fmt.Sprintf("%s in pointer/map/array positions: %v", names[k], err), nil)
+				return
+			}
+		}
+		val := func() int64 {
+			if mults[k] == 0 {
+				return int64(int32(r.Uint32())) >> uint(r.IntN(24))
+			}
+			lim := math.MaxInt64 / mults[k]
+			v := int64(r.Uint64()) >> uint(r.IntN(40))
+			if v > lim || v < -lim {
+				v %= lim
+			}
+			return v
+		}
+		inst := func(v int64) time.Time {
+			if mults[k] == 0 {
+				return time.Unix(v*86400, 0)
+			}
+			return time.Unix(0, v*mults[k])
+		}
+		L := func(b []byte, v int64) []byte { return refavro.AppendLong(b, v) }
+		na, ns := 1+r.IntN(4), 1+r.IntN(4)
+		var vals []int64
+		var enc []byte
+		next := func() int64 { v := val(); vals = append(vals, v); return v }
+		enc = L(L(enc, 1), next())   // p1
+		enc = L(L(enc, 1), next())   // p2
+		enc = L(enc, 1)              // m: one entry
+		enc = append(L(enc, 1), 'k') //
+		enc = L(L(enc, next()), 0)   //
+		enc = L(enc, int64(na))      // a
+		for j := 0; j < na; j++ {
+			enc = L(L(enc, 1), next())
+		}
+		enc = L(L(enc, 0), int64(ns)) // s
+		for j := 0; j < ns; j++ {
+			enc = L(enc, next())
+		}
+		enc = L(L(enc, 0), next()) // t
+		var rec c19Pos
+		c19rb.Reset(enc)
+		err := c19pos[k].Read(c19rb, unsafe.Pointer(&rec))
+		c.Eval(1)
+		if err != nil || rec.P1 == nil || rec.P2 == nil || len(rec.M) != 1 || len(rec.A) != na || len(rec.S) != ns {
+			c.Violate("long-decode", fmt.Sprintf("%s in pointer/map/array positions: input %x decodes with err=%v to %+v", names[k], enc, err, rec), nil)
+			return
+		}
+		got := []time.Time{*rec.P1, *rec.P2, rec.M["k"]}
+		for _, p := range rec.A {
+			if p == nil {
+				c.Violate("long-decode", fmt.Sprintf("%s: non-null array item decoded as nil", names[k]), nil)
+				return
+			}
+			got = append(got, *p)
+		}
+		got = append(append(got, rec.S...), rec.T)
+		posName := func(j int) string {
+			switch {
+			case j == 0:
+				return "first pointer field"
+			case j == 1:
+				return "second pointer field"
+			case j == 2:
+				return "map value"
+			case j < 3+na:
+				return "array-of-pointers item"
+			case j < 3+na+ns:
+				return "array item"
+			}
+			return "plain field"
+		}
+		for j, v := range vals {
+			if !got[j].Equal(inst(v)) {
+				c.Violate("long-decode", fmt.Sprintf("%s as %s: stored integer %d decodes to %s, specification: %s (all stored integers of the record: %v)", names[k], posName(j), v, got[j].UTC().Format(time.RFC3339Nano), inst(v).UTC().Format(time.RFC3339Nano), vals), nil)
+				return
+			}
+		}
+		c19rb.ExtractResourceBank().Close()
+		c19wb.Reset()
+		c19pos[k].Write(c19wb, unsafe.Pointer(&rec))
+		if string(c19wb.Bytes()) != string(enc) {
+			c.Violate("long-encode", fmt.Sprintf("%s in pointer/map/array positions: wrote %x, the integers that decode back are %x", names[k], c19wb.Bytes(), enc), nil)
+			return
+		}
+		c.Count("position-records."+names[k], 1)
+	}
+}
+
 type c19codec struct {
 	name  string
 	codec avro.Codec
@@ -102,7 +217,19 @@ func c19setup(c *core.Ctx) {
 	}
 	c19rb = avro.NewReadBuf(nil)
 	c19wb = avro.NewWriteBuf(nil)
+	if tz := os.Getenv("VERIF_TZ"); tz != "" {
+		loc, err := time.LoadLocation(tz)
+		if err != nil {
+			c.Inconclusive("time zone database entry not available: " + tz)
+		} else {
+			time.Local = loc
+			c.Count("local-zone."+tz, 1)
+			c19dateCounter = "date.values.local-zone"
+		}
+	}
 }
+
+var c19dateCounter = "date.values"
 
 func c19decode(cd avro.Codec, v int64) (time.Time, error) {
 	var buf [12]byte
@@ -218,7 +345,7 @@ func runC19(c *core.Ctx, i int) {
 			for k := int64(0); k < 1<<20; k++ {
 				c19checkDate(c, dateC, base+k)
 			}
-			c.Count("date.values", 1<<20)
+			c.Count(c19dateCounter, 1<<20)
 		} else {
 			// |d| <= 2^17 split over the chunks, boundaries, random
 			span := int64(1<<18+1) / int64(nDateChunks)
@@ -242,12 +369,15 @@ func runC19(c *core.Ctx, i int) {
 				c19checkDate(c, dateC, int64(int32(r.Uint32())))
 				n++
 			}
-			c.Count("date.values", n)
+			c.Count(c19dateCounter, n)
 		}
 		c.Shape(fmt.Sprintf("date-%d", i))
 	default:
 		for k := 0; k < 5000; k++ {
 			c19checkAll(c, r)
+		}
+		for k := 0; k < 3000; k++ {
+			c19checkPositions(c, r)
 		}
 		for _, cc := range c19codecs[1:] {
 			if i == nDateChunks {
@@ -293,10 +423,20 @@ func init() {
 		ID:        "C19",
 		Level:     "exploration",
 		Technique: "runtime monitoring: codecs built by Schema.Codec for date/timestamp-millis/timestamp-micros/plain-long schemas, checked value by value against integer arithmetic on Unix time (exhaustive over all int32 day counts in the thorough tier)",
-		Rule: "date: every day count with |d|<=2^17 plus boundaries plus 10^6 random int32 (quick), all 2^32 day counts (thorough); longs: ±2 around every power of two, representability limits, random values across magnitudes, random times with sub-unit remainders before/after 1970 in non-UTC locations; " +
+		Rule: "date: every day count with |d|<=2^17 plus boundaries plus 10^6 random int32 (quick), all 2^32 day counts (thorough); longs: ±2 around every power of two, representability limits, random values across magnitudes, random times with sub-unit remainders before/after 1970 in non-UTC locations; records with each interpretation in two pointer fields, a map value, arrays of pointers and of values and a plain field; the workload repeated (in full at the quick tier, 1/16 of the cases at the thorough tier) with the process's local zone set to New York and Lisbon; " +
 			"distinct_nontrivial = distinct (interpretation, chunk) pairs completed",
 		Explanation: "Decode oracle: time.Unix(d*86400,0) resp. time.Unix(0, v*unit), independent of time.Date normalisation. Encode oracle: the stored integer must decode (by the specification's meaning) to within one unit of the time and exactly on multiples of the unit; dates must store the floor day.",
-		Modes:       func(tier string) []core.Mode { return []core.Mode{{Name: "plain", Variant: "plain"}} },
+		Modes: func(tier string) []core.Mode {
+			// the instants are absolute: the process's local zone (here: zones with daylight saving, one of them
+			// with a standard offset that changed since 1970) must make no difference
+			div := 1
+			if tier == "thorough" {
+				div = 16
+			}
+			return []core.Mode{{Name: "plain", Variant: "plain"},
+				{Name: "tz-newyork", Variant: "plain", Env: []string{"VERIF_TZ=America/New_York"}, CaseDiv: div},
+				{Name: "tz-lisbon", Variant: "plain", Env: []string{"VERIF_TZ=Europe/Lisbon"}, CaseDiv: div}}
+		},
 		NumCases: func(c *core.Ctx) int {
 			if c.Quick() {
 				return 16 + 16
@@ -308,6 +448,11 @@ func init() {
 			var u []string
 			if a.Tier == "thorough" && a.C("date.values") != 1<<32 {
 				u = append(u, fmt.Sprintf("date.values=%d != 2^32", a.C("date.values")))
+			}
+			for _, k := range []string{"position-records.date", "position-records.timestamp-millis", "position-records.timestamp-micros", "position-records.plain-long", "date.values.local-zone"} {
+				if a.C(k) < 10000 {
+					u = append(u, fmt.Sprintf("%s=%d < 10000", k, a.C(k)))
+				}
 			}
 			for _, k := range []string{"date.pre1970", "timestamp-millis.pre1970", "timestamp-micros.pre1970", "plain-long.pre1970", "timestamp-millis.write-pre1970"} {
 				if a.C(k) < 10000 {
